@@ -18,9 +18,18 @@ class Flow:
     def datastream(self, ds=None):
         return self._chain(ds)._process()
 
+    def _links(self):
+        # plain nested Flows are just a way of grouping steps: a checkpoint inside one
+        # stands for all the steps before it, also those of the enclosing flow
+        for link in self.chain:
+            if type(link) is Flow:
+                yield from link._links()
+            else:
+                yield link
+
     def _preprocess_chain(self):
         checkpoint_links = []
-        for link in self.chain:
+        for link in self._links():
             if hasattr(link, 'handle_flow_checkpoint'):
                 checkpoint_links = link.handle_flow_checkpoint(checkpoint_links)
             else:
